@@ -767,7 +767,7 @@ func simInstallYield(seed uint64, allowSleep bool) (sig func() uint64, count fun
 		case 4:
 			// (a sleeping goroutine is durably blocked: synctest.Wait() would report quiescence while
 			// gobgp still has work in hand, so checks that compare at quiescence must not allow sleeps)
-			if allowSleep && point != "bucket" && point != "walk" { // both sit inside locks other goroutines wait for
+			if allowSleep && point != "bucket" && point != "walk" && point != "target" { // both sit inside locks other goroutines wait for
 				time.Sleep(time.Duration(x>>8&1023) * time.Microsecond)
 			} else {
 				runtime.Gosched()
